@@ -1,10 +1,12 @@
 (* C09 — searching an alias over shards equals searching one index with all documents.
    Property theorems only (each closed by [exact]) + Print Assumptions.
-   Model: Collect/Shards.v; proofs: Collect/ShardsSort.v, ShardsProofs.v, ShardsFacetProofs.v, ShardsFacetTree.v;
+   Model: Collect/Shards.v, Collect/ShardsPre.v (pre-search); proofs: Collect/ShardsSort.v, ShardsProofs.v,
+   ShardsFacetProofs.v, ShardsFacetTree.v, ShardsPreProofs.v;
    T1 facts: Extracted.XAlias, obligations Extracted/Obligations_C09.v. *)
 From Coq Require Import ZArith List Permutation.
 From Verif Require Import Common.Bytes Collect.Shards Collect.ShardsSort Collect.ShardsProofs
-  Collect.ShardsFacetProofs Collect.ShardsFacetTree Extracted.Extracted Extracted.Obligations_C09.
+  Collect.ShardsFacetProofs Collect.ShardsFacetTree Collect.ShardsPre Collect.ShardsPreProofs
+  Extracted.Extracted Extracted.Obligations_C09.
 Import ListNotations.
 Local Open Scope Z_scope.
 
@@ -121,3 +123,45 @@ Theorem C09_size_zero_current_source :
   end.
 Proof. exact ob_size_zero_current. Qed.
 Print Assumptions C09_size_zero_current_source.
+
+(* ---------------------------------------------------------------- the pre-search phase (pre_search.go) *)
+
+(* synonym_merge_complete — the synonym pre-search loses nothing: whatever the order in which the
+   members' pre-search answers arrive, the merged FieldTermSynonymMap holds a (field, term, synonym)
+   triple iff some member's answer holds it (definitions of one term spread over several members
+   are all kept) *)
+Theorem C09_synonym_merge_complete : forall fl (rs arrived : list presult) x,
+  fl_syn fl = true -> Permutation rs arrived ->
+  (In x (osyn_triples (p_syn (presearch_combine fl arrived))) <->
+   exists r, In r rs /\ In x (osyn_triples (p_syn r))).
+Proof. exact synonym_merge_complete. Qed.
+Print Assumptions C09_synonym_merge_complete.
+
+(* presearch_reaches_every_member — when every alias of the tree was given the mapping
+   (SetIndexMapping) and the query searches a synonym-enabled field, every member index is handed
+   exactly the whole thesaurus: the union of all members' synonyms for the query, i.e. what one
+   index holding every definition knows.  The only members searched without PreSearchData sit under
+   a chain of single-member aliases onto one index, which then is the whole corpus *)
+Theorem C09_presearch_reaches_every_member : forall c t,
+  all_mapped t = true -> c_matchnone c = false -> c_synfield c = true ->
+  forall sl d, In (sl, d) (leaf_data c t None) ->
+  match d with
+  | Some pd => exists s, pd_syn pd = Some s /\
+                         forall x, In x (fts_triples s) <-> In x (global_triples t)
+  | None => sleaves t = [sl]
+  end.
+Proof. exact presearch_reaches_every_member. Qed.
+Print Assumptions C09_presearch_reaches_every_member.
+
+(* alias_tree_page_presearch — the property with the pre-search phase in play: whenever every
+   member's matches are those it has under the PreSearchData that reaches it, the alias answers — up
+   to HitNumber — what one index holding all those matches answers (pages, SearchAfter, SearchBefore,
+   Total) *)
+Theorem C09_alias_tree_page_presearch : forall g c st rq t,
+  resolve c st None = Some t ->
+  wf_stree st = true -> rq_ok g rq -> total_keys (q_desc rq) (smatches st) ->
+  exists r, search_pre g c st rq = Some r /\
+            map hobs (r_hits r) = map hobs (spec_hits rq (smatches st)) /\
+            r_total r = zlen (smatches st).
+Proof. exact alias_tree_page_presearch. Qed.
+Print Assumptions C09_alias_tree_page_presearch.
